@@ -127,7 +127,9 @@ theorem dirs_ok {fs0 : Fs} : ∀ (dsr : List Bytes) (dl : List Bytes) (fs : Fs),
     obtain ⟨fs', h2, k2⟩ := ih (d :: dl) fs1 k1 (fun d' hd' => hn d' (by simp [hd']))
     refine ⟨fs', ?_, by simpa using k2⟩
     unfold extractDirs
-    rw [destJoin_eq, h1]
+    rw [extractionPath_normal T (hn d (by simp))]
+    simp only
+    rw [h1]
     exact h2
 
 /-- a directory entry -/
@@ -160,9 +162,13 @@ theorem K_diritem {fs0 fs : Fs} {ds : List Bytes} {done : List Item} (hk : K T f
     resolve_of_dirs hT true _ hn htop1 (fun k hk' => post.made k (Nat.le_of_lt hk')) (fun _ t h => by rw [hm0] at h; cases h)
   have h2 := setPerm_dir it.perm hres hm0
   refine ⟨fs1.set (T ++ compsD it.path) (.dir it.perm), ?_, ?_⟩
-  · unfold extractItem
-    simp only [hkind]
-    rw [destJoin_eq, h1]
+  · have href : refuseSymlinks fs T (relOf it.path) true = false :=
+      refuse_false hne hT hn hk.top true (fun k hk' _ t ht => by
+        rcases hpre k hk' with h | ⟨m, h⟩ <;> rw [h] at ht <;> cases ht)
+    unfold extractItem
+    rw [extractionPath_normal T hn]
+    simp only [hkind, href, Bool.false_eq_true, if_false]
+    rw [h1]
     simp only [andThen_ok]
     rw [h2]
     rfl
@@ -242,7 +248,6 @@ theorem K_put {fs0 fs fs2 : Fs} {ds : List Bytes} {done : List Item} (hk : K T f
   · have : q ≠ T ++ compsD it.path := fun he => hq (he ▸ List.prefix_append _ _)
     rw [h2, if_neg this]; exact hk.frame q hq
 
-omit hne in
 /-- a regular-file or link entry -/
 theorem K_leafitem {fs0 fs : Fs} {ds : List Bytes} {done : List Item} (hk : K T fs0 fs ds done) (it : Item)
     (hkind : it.kind = .regular ∨ (it.kind = .symlink ∧ it.linkto ≠ []))
@@ -269,6 +274,16 @@ theorem K_leafitem {fs0 fs : Fs} {ds : List Bytes} {done : List Item} (hk : K T 
     rw [this]; exact List.take_prefix _ _
   have hres : ∀ fl, resolve fs fl (T ++ compsD it.path) = .ok (T ++ compsD it.path) := fun fl =>
     resolve_of_dirs hT fl _ hn hk.top hdirs (fun _ t h => by rw [hv] at h; cases h)
+  have href : refuseSymlinks fs T (relOf it.path) false = false :=
+    refuse_false hne hT hn hk.top false (fun k _ hlk t ht => by
+      rcases hlk with h | h
+      · cases h
+      · obtain ⟨m, hm⟩ := hdirs k h
+        rw [hm] at ht; cases ht)
+  have hnotlink : isSymlinkAt fs (T ++ compsD it.path) = false := by
+    unfold isSymlinkAt
+    rw [hres false]
+    simp only [hv]
   rcases hkind with hreg | ⟨hlnk, hlt⟩
   · have h1 := fileCreate_vacant it.content (hres true) hv
     -- the second call sees the file just created
@@ -284,8 +299,9 @@ theorem K_leafitem {fs0 fs : Fs} {ds : List Bytes} {done : List Item} (hk : K T 
     have h2 := setPerm_file it.perm hres1 hg1
     refine ⟨fs1.set (T ++ compsD it.path) (.file it.content it.perm), ?_, ?_⟩
     · unfold extractItem
-      simp only [hreg]
-      rw [destJoin_eq, h1]
+      rw [extractionPath_normal T hn]
+      simp only [hreg, href, hnotlink, Bool.false_eq_true, if_false, andThen_ok]
+      rw [h1]
       simp only [andThen_ok]
       rw [h2]
       rfl
@@ -297,9 +313,8 @@ theorem K_leafitem {fs0 fs : Fs} {ds : List Bytes} {done : List Item} (hk : K T 
     have h1 := symlink_vacant hlt (hres false) hv
     refine ⟨fs.set (T ++ compsD it.path) (.symlink it.linkto), ?_, ?_⟩
     · unfold extractItem
-      simp only [hlnk]
-      rw [destJoin_eq, hle]
-      simp only [Bool.false_eq_true, if_false]
+      rw [extractionPath_normal T hn]
+      simp only [hlnk, href, hle, Bool.false_eq_true, if_false]
       rw [h1]
       rfl
     · refine K_put hk it (.symlink it.linkto) (by rw [hlnk]; simp) (by simp [wantNode, hlnk]) hv (fun q => ?_) hdist
@@ -348,7 +363,7 @@ theorem items_ok {fs0 : Fs} {ds : List Bytes} {all : List Item} (hb : BenignItem
           | regular => exact Or.inl rfl
           | symlink => exact Or.inr ⟨rfl, hlink hkk⟩
           | other => exact absurd hkk hko
-        refine K_leafitem hT hk it hkind (hb.normal it hit) hpar ?_ hdist1
+        refine K_leafitem hT hne hk it hkind (hb.normal it hit) hpar ?_ hdist1
         rintro (h | h | ⟨i, hi, hik, hpre⟩)
         · exact hne' h
         · exact hnotdn h
